@@ -134,8 +134,20 @@ def _wrap(pool, thunk, register=None):
 # ---- constructors ------------------------------------------------------------
 
 
+def _as_container(items, kind):
+    """Constructor arguments are documented as iterables: hand them over as list / tuple / generator / iterator."""
+    if kind == "tuple":
+        return tuple(items)
+    if kind == "gen":
+        return (x for x in items)
+    if kind == "iter":
+        return iter(list(items))
+    return list(items)
+
+
 def _mkv(pool, op):
-    _, name, cname, links, unis = op
+    _, name, cname, links, unis = op[:5]
+    ckind = op[5] if len(op) > 5 else "list"
     if not pool.has(*links) or not pool.has(*unis) or name in pool.objs:
         return SKIP
     cls = zoo.VERTEX_CLASSES[cname]
@@ -145,16 +157,17 @@ def _mkv(pool, op):
     def t():
         kw = {"attributes": {"idx": idx}}
         if links:
-            kw["links"] = ls
+            kw["links"] = _as_container(ls, ckind)
         if unis:
-            kw["universes"] = us
+            kw["universes"] = _as_container(us, ckind)
         return cls(**kw)
 
     return _wrap(pool, t, register=name)
 
 
 def _mku(pool, op):
-    _, name, verts, laws = op
+    _, name, verts, laws = op[:4]
+    ckind = op[4] if len(op) > 4 else "list"
     if not pool.has(*verts) or not pool.has(laws) or name in pool.objs:
         return SKIP
     vs = _resolve(pool, verts)
@@ -163,7 +176,7 @@ def _mku(pool, op):
     def t():
         kw = {"attributes": {"idx": idx}}
         if verts:
-            kw["vertices"] = vs
+            kw["vertices"] = _as_container(vs, ckind)
         if laws is not None:
             kw["laws"] = pool.get(laws)
         return Universe(**kw)
@@ -202,11 +215,12 @@ def _mke(pool, op):
 
 
 def _mkl(pool, op):
-    _, name, verts = op
+    _, name, verts = op[:3]
+    ckind = op[3] if len(op) > 3 else "list"
     if not pool.has(*verts) or name in pool.objs:
         return SKIP
     vs = _resolve(pool, verts)
-    return _wrap(pool, lambda: zoo.MultiLink(vertices=vs, attributes={"tag": 0}), register=name)
+    return _wrap(pool, lambda: zoo.MultiLink(vertices=_as_container(vs, ckind), attributes={"tag": 0}), register=name)
 
 
 def _mkw(pool, op):
